@@ -332,6 +332,11 @@ func (gb *gcpBalancer) newSubConn() {
 
 // newSubConnLocked is newSubConn for callers that already hold the mutex lock.
 func (gb *gcpBalancer) newSubConnLocked() {
+	// Pickers check the pool size before asking for a new subconn, but they do it in a
+	// separate critical section. Re-check here, in the critical section that creates it.
+	if maxSize := int(gb.cfg.GetChannelPool().GetMaxSize()); maxSize > 0 && len(gb.scRefs) >= maxSize {
+		return
+	}
 	// there are chances the newly created subconns are still connecting,
 	// we can wait on those new subconns.
 	for _, scState := range gb.scStates {
